@@ -49,26 +49,73 @@ type checkDef struct {
 
 var verifDir = "/verif"
 
+// checks loads harness/worlds/*/checkdef.json.  Each file lists the checks a world serves;
+// entries with the same ID in several worlds are merged into one multi-part check.
 func checks() map[string]*checkDef {
 	m := map[string]*checkDef{}
-	add := func(c *checkDef) { m[c.ID] = c }
-	scanReal := []string{"scalibr.Scanner.Scan", "extractor/filesystem.Run/RunFS/walkContext", "extractor/filesystem/internal.WalkDirUnsorted + gitignore (go-git matcher)", "extractor/standalone.Run", "detector.Run", "packageindex", "result sorting"}
-	scanStub := []string{"scanned file system: SimFS (in-memory, seeded listing order, chunking, faults)", "extractors/detectors/standalone extractors: harness plugins with scenario-defined predicates and outputs", "stats.Collector: recording collector"}
-	add(&checkDef{ID: "C01", World: "scan", Level: "exploration", Quick: budget{8, 6000, 100}, Thorough: budget{16, 2000000, 1500}, Real: scanReal, Stub: scanStub,
-		Assume: []string{"gitignore dialect restricted to literal names, *.ext, name/, /anchored, dir/name (no negation, no **)", "requested paths that are themselves excluded by a skip rule, or are symlinks, are not generated (statement does not fix the outcome)", "IgnoreSubDirs only together with requested paths; no nested requested pairs under the cut-off", "dispatch of dangling/directory symlinks: attempt expected, outcome not asserted"}})
-	add(&checkDef{ID: "C09", World: "scan", Level: "fault_enumeration", Quick: budget{8, 60, 120}, Thorough: budget{16, 100000, 1500}, Real: scanReal, Stub: scanStub,
-		Assume: []string{"inside a failing directory or (file, extractor) attempt an extraction may be present or absent", "a fault on a .gitignore makes the ignore rules of its directory unknown: extra extractions inside that directory are accepted", "extractors that considered a file whose lazy path-stat was faulted: status not asserted", "with fatal-on-fs-errors set and only file-level faults delivered, either overall outcome is accepted"}})
-	add(&checkDef{ID: "C10", World: "scan", Level: "fault_enumeration", Quick: budget{8, 400, 120}, Thorough: budget{16, 1000000, 1200}, Real: scanReal, Stub: scanStub,
-		Assume: []string{"'the file being handled' at a cancel instant = path of the most recent AfterInodeVisited event; further extractors on that same file may still run", "if only traversal remained after the cancel instant, either overall outcome is accepted"}})
-	add(&checkDef{ID: "C08", World: "scan", Level: "exploration", Quick: budget{8, 500, 120}, Thorough: budget{16, 1000000, 1200}, Real: scanReal, Stub: scanStub,
-		Assume: []string{"failure reasons are compared as sets of lines (the engine concatenates per-file errors in encounter order)", "Go map iteration order inside the library is sampled by repeating every schedule, not controlled", "for multi-root scans only what the statement fixes about statuses is asserted"}})
-	add(&checkDef{ID: "C20", World: "scan", Level: "exploration", Quick: budget{8, 3000, 120}, Thorough: budget{16, 3000000, 900}, Real: scanReal, Stub: scanStub,
-		Assume: []string{"findings whose advisory is present but whose advisory ID is nil are not generated (statement does not say what must happen)"}})
-	add(&checkDef{ID: "C16", Level: "exploration", Quick: budget{6, 300, 120}, Thorough: budget{16, 1000000, 1500},
-		Parts: []partDef{{World: "scan", Race: true}},
-		Real:  append([]string{"testing/synctest fake clock driving the engine's 2 s status ticker", "Go race detector"}, scanReal...), Stub: scanStub,
-		Assume: []string{"interleavings are explored at seam granularity; unsynchronised memory access between arbitrary instructions is left to the race detector"}})
+	files, _ := filepath.Glob(filepath.Join(verifDir, "harness", "worlds", "*", "checkdef.json"))
+	sort.Strings(files)
+	for _, f := range files {
+		b, err := os.ReadFile(f)
+		if err != nil {
+			die2("%v", err)
+		}
+		var defs []struct {
+			ID       string
+			Level    string
+			Quick    budget
+			Thorough budget
+			Part     partDef
+			Assume   []string
+			Real     []string
+			Stub     []string
+		}
+		if err := json.Unmarshal(b, &defs); err != nil {
+			die2("%s: %v", f, err)
+		}
+		for _, d := range defs {
+			c := m[d.ID]
+			if c == nil {
+				c = &checkDef{ID: d.ID, Level: d.Level, Quick: d.Quick, Thorough: d.Thorough}
+				m[d.ID] = c
+			} else {
+				c.Quick = maxBudget(c.Quick, d.Quick)
+				c.Thorough = maxBudget(c.Thorough, d.Thorough)
+			}
+			c.Parts = append(c.Parts, d.Part)
+			c.Assume = append(c.Assume, d.Assume...)
+			c.Real = appendUniq(c.Real, d.Real)
+			c.Stub = appendUniq(c.Stub, d.Stub)
+		}
+	}
 	return m
+}
+
+func maxBudget(a, b budget) budget {
+	if b.Workers > a.Workers {
+		a.Workers = b.Workers
+	}
+	if b.Scenarios > a.Scenarios {
+		a.Scenarios = b.Scenarios
+	}
+	if b.Seconds > a.Seconds {
+		a.Seconds = b.Seconds
+	}
+	return a
+}
+
+func appendUniq(a, b []string) []string {
+	seen := map[string]bool{}
+	for _, x := range a {
+		seen[x] = true
+	}
+	for _, x := range b {
+		if !seen[x] {
+			seen[x] = true
+			a = append(a, x)
+		}
+	}
+	return a
 }
 
 func env(k, def string) string {
